@@ -30,11 +30,11 @@ Fixpoint run (p : params) (rs : list rate_entry) (h : Z) (bs : list block_in) : 
       end
   end.
 
-Definition no_wrap (p : params) (e : rate_entry) : Prop :=
-  0 <= r_created e /\ 0 <= p_expiration p /\ r_created e + p_expiration p < UINT64.
+(** ExpirationBlocks is a uint64; after commit 48f939b nothing else is needed (no wrap-around) *)
+Definition no_wrap (p : params) (e : rate_entry) : Prop := 0 <= p_expiration p.
 
 Lemma expired_no_wrap p e h : no_wrap p e -> (expired p e h = true <-> r_created e + p_expiration p <= h).
-Proof. intros [H1 [H2 H3]]. unfold expired. rewrite Z.mod_small by lia. apply Z.leb_le. Qed.
+Proof. intro H. apply (expired_iff p e h H). Qed.
 
 Lemma step_in p st h rs1 evs e :
   end_block true p st h = Done rs1 evs -> ~ quorum p st (r_pair e) -> no_wrap p e ->
@@ -136,37 +136,50 @@ Theorem abstain_influence_before_fix :
   exists p st h, wf st /\ update false p (strip st) h <> update false p st h.
 Proof. exists p_ex, st_f7, 4. split; [exact f7_wf|]. vm_compute. discriminate. Qed.
 
-(** outside the domain (current code): ExpirationBlocks close to 2^64 wraps the uint64 addition and
-    a fresh rate is dropped at once; a median close to the Dec limit, or a huge VoteThreshold, panics *)
+(** before 48f939b: ExpirationBlocks close to 2^64 wrapped the uint64 addition and a fresh rate was
+    dropped at once; the current code keeps it *)
 Definition st_one (rate : Z) (rs : list rate_entry) : state :=
   mkState [mkVal 0 true 1] 100 1000000 1000000 [0%nat] [mkAVote 0 [(0%nat, rate)]] rs.
 
-Theorem expiry_wraps_outside_domain :
-  exists p st h e, wf st /\ In e (rates st) /\ ~ expired_at p e h /\ ~ quorum p st (r_pair e) /\
-                   end_block true p st h = Done [] [].
+Theorem expiry_wrap_before_fix :
+  exists p st h e, wf st /\ domain p st h = true /\ In e (rates st) /\ ~ expired_at p e h /\ ~ quorum p st (r_pair e) /\
+                   end_block_gen true false true p st h = Done [] [] /\
+                   end_block true p st h = Done [e] [].
 Proof.
   exists (mkParams 1 500000000000000000 1 (UINT64 - 1) 0),
          (mkState [mkVal 0 true 1] 100 1000000 1000000 [0%nat] [] [mkRate 0 five 5]), 9, (mkRate 0 five 5).
-  split; [intros v [<-|[]]; simpl; lia|]. split; [left; reflexivity|].
+  split; [intros v [<-|[]]; simpl; lia|]. split; [vm_compute; reflexivity|]. split; [left; reflexivity|].
   split; [unfold expired_at; simpl; unfold UINT64; lia|].
-  split; [intros [_ [Hz _]]; apply Hz; reflexivity|]. vm_compute. reflexivity.
+  split; [intros [_ [Hz _]]; apply Hz; reflexivity|]. split; vm_compute; reflexivity.
 Qed.
 
-Theorem tally_panics_outside_domain :
-  exists p st h, wf st /\ quorum p st 0%nat /\ end_block true p st h = Panic.
+(** before 66a0ce3: a median close to the Dec limit made Tally's median.Add(spread) panic; the current
+    code publishes it *)
+Theorem tally_add_panics_before_fix :
+  exists p st h, wf st /\ domain p st h = true /\ quorum p st 0%nat /\
+                 end_block_gen true true false p st h = Panic /\
+                 end_block true p st h = Done [mkRate 0 DEC_LIMIT h] [(0%nat, DEC_LIMIT)].
 Proof.
   exists p_ex, (st_one DEC_LIMIT []), 4.
-  split; [intros v [<-|[]]; simpl; lia|]. split; [|vm_compute; reflexivity].
-  apply quorum_b_iff. vm_compute. reflexivity.
+  split; [intros v [<-|[]]; simpl; lia|]. split; [vm_compute; reflexivity|].
+  split; [apply quorum_b_iff; vm_compute; reflexivity|]. split; vm_compute; reflexivity.
 Qed.
 
-Theorem threshold_panics_outside_domain :
-  exists p st h, wf st /\ end_block true p st h = Panic.
+(** a VoteThreshold far above 1 still panics in MulInt64 — but Params.Validate rejects it since 662a06f,
+    on genesis import and on every MsgEditOracleParams *)
+Theorem threshold_panics_only_for_rejected_params :
+  exists p st h, wf st /\ params_valid p = false /\ end_block true p st h = Panic.
 Proof.
   exists (mkParams 1 DEC_LIMIT 1 10 0),
          (mkState [mkVal 0 true 2] 100 2000000 1000000 [0%nat] [mkAVote 0 [(0%nat, five)]] []), 4.
-  split; [intros v [<-|[]]; simpl; lia|]. vm_compute. reflexivity.
+  split; [intros v [<-|[]]; simpl; lia|]. split; vm_compute; reflexivity.
 Qed.
+
+(** the variants with all repairs selected are the current model *)
+Lemma update_gen_current fx p st h : update_gen fx true true p st h = update fx p st h.
+Proof. reflexivity. Qed.
+Lemma end_block_gen_current fx p st h : end_block_gen fx true true p st h = end_block fx p st h.
+Proof. reflexivity. Qed.
 
 (* ---------------------------------------------------------------- non-vacuity *)
 
@@ -205,4 +218,4 @@ Example ex_expiry_nonvacuous :
   no_wrap p_ex (mkRate 2 one 0) /\
   run p_ex [mkRate 2 one 0] 8 [mkBlockIn [] 100 0 1000000 [2%nat] []; mkBlockIn [] 100 0 1000000 [2%nat] []] = Some [mkRate 2 one 0] /\
   run p_ex [mkRate 2 one 0] 8 [mkBlockIn [] 100 0 1000000 [2%nat] []; mkBlockIn [] 100 0 1000000 [2%nat] []; mkBlockIn [] 100 0 1000000 [2%nat] []] = Some [].
-Proof. split; [unfold no_wrap, UINT64; simpl; lia|]. split; vm_compute; reflexivity. Qed.
+Proof. split; [unfold no_wrap; simpl; lia|]. split; vm_compute; reflexivity. Qed.
